@@ -36,7 +36,10 @@ MODS = {}
 def describe(pid, meta, fname, t):
     mod = MODS.get(pid)
     if mod is not None and hasattr(mod, "describe"):
-        return mod.describe(meta, fname, t)
+        try:
+            return mod.describe(meta, fname, t)
+        except Exception as e:      # a describer must never hide a mismatch
+            return {"key": "%s:%s" % (fname, t), "what": "mismatch %s in %s (not described: %s: %s)" % (t, fname, type(e).__name__, e)}
     return {"key": "%s:%s" % (fname, t), "what": "mismatch %s in %s" % (t, fname)}
 
 
